@@ -245,6 +245,10 @@ def judge_case(T: dict, case: dict, loaders_by_k: dict, reps: int, bad: dict, ou
                                 if iv is _NOIV or nd.c != "atom" or nd.a in univ.STATEFUL_TOKENS:
                                     continue
                                 v = nd.value
+                                # (a loader that materialises its input first - the constant-length tuple loader calls tuple(data) -
+                                #  reports the materialised datum: the same elements in the same order are the same offending value)
+                                if isinstance(iv, (tuple, list)) and isinstance(v, (str, bytes, bytearray)) and list(iv) == list(v):
+                                    continue
                                 if not (iv is v or (type(iv) is type(v) and (iv == v or (iv != iv and v != v)))):  # noqa: PLR0124
                                     add("C05", "input_value_is_not_the_value_at_the_trail",
                                         f"{dt.name}: {type(exc).__name__} at trail {list(tr)} carries input_value={iv!r}; the sub-value there is {v!r}", dt.name,
